@@ -26,3 +26,28 @@ reg("C05",
     "widths, sorted in-range divide offsets, non-self-overlapping separators; wrap() is C02; from_markup is C04.",
     "TLA+ spec TextOps.tla; TLC exhaustive check of the reference semantics' laws + TLC-generated (exhaustive and -simulate) call histories replayed on real Text objects + TLC trace validation of recorded histories",
     "DESIGN.md §4 C05")
+
+reg("C10",
+    "Live.tla specifies the Live/Progress/Status display protocol (one operator per public call, the escape strings the design emits) on top of "
+    "Screen.tla, a terminal screen model in TLA+.  TLC (M1) exhaustively checks every history of 5 (quick) / 7 (thorough) calls incl. a renderable "
+    "that starts raising and restarts, for both renderers x transient, against ScreenOK / no-overwrite / cursor-in-region / Restored; (M2) emits "
+    "every 3..5-call history.  Those and seeded random histories (<= 40 calls incl. log, redirected stdout, task add/hide/show/remove, faults in the "
+    "renderable and in the body) run on the real classes; every byte written to the console file is tokenised and TLC itself replays it on "
+    "Screen.tla, comparing the screen, cursor visibility, hook depth and stdio restoration after every call (trace validation).  Bounded; conformance, not proof.",
+    "Trusted: engine/termlex.py (lexical tokeniser; text identified by per-line labels, unlabelled text ignored); unbounded scroll-back; blank rows "
+    "are not judged; auto_refresh off (timing is C11).",
+    "TLA+ specs Live.tla + Screen.tla; TLC exhaustive model check of the display protocol + TLC-generated histories replayed on real Live/Progress/Status + TLC replay of the emitted terminal stream (trace validation)",
+    "DESIGN.md §4 C10")
+
+reg("C12",
+    "Progress.tla specifies task accounting at the atomic grain; MC_Progress (M1) checks completed = last set + advances, finish / fixed finish time, "
+    "non-negative speed and time remaining over every sequential history of 3 (quick) / 4 (thorough) calls on two tasks; MC_ProgressConc models advance() "
+    "at the grain of the code's pre-emption points (clock read, lock, read-modify-write, release) for 2-3 threads and must hold with the clock read "
+    "under the lock and be violated (vacuity guard) with the pinned order.  TLC-generated and random sequential histories run on a real Progress with "
+    "a mock clock and are validated call by call; concurrent programs (2-4 threads) run on real threads under the deterministic scheduler (DFS with "
+    "pre-emption bound 2 at lock/clock/write points, bound 1 at every line and at every opcode of advance/update/reset/add_task, random and PCT "
+    "schedules) and each recorded history is accepted iff TLC finds a linearisation; track() over lists/generators with the real _TrackThread scheduled.  Bounded.",
+    "Trusted: obs_task (reads Task attributes), engine/dsched.py (serialises threads; lock/event proxies), mock clock. Amounts are multiples of 0.5; "
+    "percentages judged to 1e-4 for |values| <= 1000; no pre-emption inside a bytecode.",
+    "TLA+ specs Progress.tla (+ fine-grain MC_ProgressConc); TLC exhaustive model check + TLC-generated histories replayed on real Progress + TLC trace validation (sequential) and TLC linearisation search over histories recorded from real threads under a deterministic scheduler",
+    "DESIGN.md §4 C12, §5")
